@@ -87,6 +87,26 @@ def methods_via_class(rep):
       w.close()
 
 
+def unknown_parameters_over_shapes(rep):
+  """MightHave (GinCore: `c.vk \\/ p \\in NamedParams(c)`) over the shape universe of the registration adapter: a name the
+  construction signature cannot take is rejected on every binding path - whatever base classes, metaclasses or
+  decorators surround that signature."""
+  from ginverif import adapter_register as R
+  for shape in sorted(R.SHAPES):
+    if shape in R.TAKES_ANY_NAME or shape.startswith('class-with-'):
+      continue
+    for api in ('external', 'register'):
+      rep.evaluations += 1
+      rep.nontrivial_case('unknown-parameter/%s/%s' % (shape, api))
+      try:
+        bad = R.unknown_parameter_case(shape, api)
+      except Exception as e:  # pylint: disable=broad-except
+        bad = [('case-raised', '%s: %s' % (type(e).__name__, e))]
+      for how, got in bad:
+        rep.violation(dict(kind='unknown-parameter', shape=shape, path=how),
+                      dict(kind='unknown-parameter', shape=shape, api=api, path=how, got=got))
+
+
 def run(tier):
   rep = core.Report('C11', tier)
   rep.rule = ('TLC checks acceptance = (signature can take it, inside allowlist, outside denylist), atomicity of '
@@ -98,6 +118,7 @@ def run(tier):
   n = 200 if tier == 'quick' else 4000
   cc.replay_behaviours(rep, 'GinCore_Sim_bindval', num=n, nontrivial=_nontrivial, generate=n * 6)
   methods_via_class(rep)
+  unknown_parameters_over_shapes(rep)
   return rep.finish()
 
 
